@@ -312,6 +312,8 @@ BuildOnly(t) ==
                             << <<Txt(5), 1>>, <<<<>>, 0>> >>, << <<Txt(9), 2>>, <<<<>>, 1>>, <<<<>>, 0>> >>}}
   ELSE {}
 WillNProps(p) == IF "WillProps" \in DOMAIN p.v THEN Len(p.v["WillProps"]) ELSE 0
+vbisOf(t) == LET small == {p \in WirePkts(t) : NProps(p) <= 1 /\ WillNProps(p) <= 1} IN
+             Sample({p \in small : NProps(p) = 1 /\ Len(EncPropBody(p.v["Props"])) > 127}, 2)
 BaseForMutants(t) ==
   LET small == {p \in WirePkts(t) : NProps(p) <= 1 /\ WillNProps(p) <= 1}
       full == {p \in WirePkts(t) : NProps(p) >= Cardinality(Allowed(t)) - 1 /\ NProps(p) > 1}
@@ -353,7 +355,12 @@ MutantCases ==
                   p \in SweepBase(t), pos \in 1..2, id \in DefinedIds \ Allowed(t)}
              \* a subscription identifier where MQTT allows none, its integer cut short or five bytes long
              \cup {[kind |-> "badsubid", t |-> t, val |-> val, tail |-> tl] :
-                  val \in {<<128>>, <<128, 128>>, <<255, 255, 255, 255, 127>>, <<255, 255, 255, 128, 1>>}, tl \in {<<>>, <<38, 0, 1, 98, 0, 1, 98>>}}
+                  val \in {<<128>>, <<128, 128>>, <<255, 255, 255, 255, 127>>, <<255, 255, 255, 128, 1>>, <<0>>}, tl \in {<<>>, <<38, 0, 1, 98, 0, 1, 98>>}}
+             \* one length field (a property length, a string / binary length prefix) one more or one less than what is there,
+             \* the remaining length left as it is: what follows is read out of step
+             \cup UNION {{[kind |-> "lenpm", p |-> p, fld |-> j, d |-> dd] :
+                            j \in {i \in 1..Len(StrictDecode(Encode(p)).fm) : StrictDecode(Encode(p)).fm[i].k \in {"vbi", "str", "str2"}},
+                            dd \in {-1, 1}} : p \in Sample(base, IF Thorough THEN 60 ELSE 10) \cup vbisOf(t)}
              \* a user property whose key / value is not well-formed UTF-8, as the last and as the first property
              \cup {[kind |-> "badutf8", p |-> p, pos |-> pos, key |-> ky, val |-> vl] :
                   p \in SweepBase(t), pos \in 1..2, ky \in {<<255, 97, 255>>, <<192, 128>>, <<237, 160, 128, 255>>, <<97>>},
@@ -398,6 +405,16 @@ MutantFrame(m) ==
            body == IF m.t \in {12, 13} THEN <<>> ELSE pre \o <<Len(props)>> \o props \o post
        IN <<m.t * 16 + (IF m.t \in {6, 8, 10} THEN 2 ELSE 0), Len(body)>> \o body
   ELSE IF m.kind = "badtext" THEN Encode(m.p)
+  ELSE IF m.kind = "lenpm" THEN
+       LET x == d.fm[m.fld] IN
+       IF x.k = "vbi"
+       THEN LET val == DecVBI(f, x.s, Len(f), Len(f), FALSE).val
+                nv == IF val + m.d < 0 THEN 0 ELSE val + m.d
+                enc == VBI(nv)
+            IN IF Len(enc) = x.e - x.s + 1 THEN SubSeq(f, 1, x.s - 1) \o enc \o SubSeq(f, x.e + 1, Len(f)) ELSE f
+       ELSE LET n == f[x.s] * 256 + f[x.s + 1]
+                nv == IF n + m.d < 0 THEN 0 ELSE IF n + m.d > 65535 THEN 65535 ELSE n + m.d
+            IN SubSeq(f, 1, x.s - 1) \o U16(nv) \o SubSeq(f, x.s + 2, Len(f))
   ELSE IF m.kind = "dupbad" THEN
        LET pr == m.p.v["Props"][m.pos]
            n == NProps(m.p)
